@@ -1,4 +1,109 @@
-import Crs.Update
+/-
+  C17 — no silent truncation: long lines and large files are processed completely.
+
+  Every line scanner of the toolchain is modelled by `scanLines` (no token limit: the code sets
+  `math.MaxInt` at every site since the repair of D03; the correspondence check feeds lines of
+  64 KiB ± 1 … 1 MiB through every site). `scanLinesLim` is the scanner with Go's default limit,
+  kept to state what the repair removed.
+-/
+import Crs.Bytes
+import Crs.Renumber
+import Crs.Copyright
+import Crs.Format
+import CrsProofs.Lines
 namespace Crs.Props
-theorem C17_placeholder : True := trivial
+open Crs
+
+/-- **C17 (the scanner loses nothing).** Scanning yields every line of the input, in order, each with at
+    most one trailing carriage return removed; no line length enters the result. -/
+theorem C17_scan_total (b : Bytes) : scanLines b = (rawLines b).map dropCR := rfl
+
+private theorem joinNl_append_nl (y : Bytes) (ys : List Bytes) : joinNl (y :: ys) ++ ['\n'] = unlines (y :: ys) := by
+  induction ys generalizing y with
+  | nil => simp [joinNl, joinCh, unlines]
+  | cons z zs ih =>
+    have h := ih z
+    have e1 : joinNl (y :: z :: zs) = y ++ '\n' :: joinNl (z :: zs) := by simp [joinNl, joinCh]
+    rw [e1, unlines_cons, List.append_assoc, List.cons_append, h]
+
+/-- the lines account for every byte: joining them with `\n` (plus the final `\n` if there was one) gives the file back -/
+theorem C17_rawLines_cover (b : Bytes) :
+    joinNl (rawLines b) = b ∨ joinNl (rawLines b) ++ ['\n'] = b := by
+  unfold rawLines
+  have hj := joinNl_splitNl b
+  cases hl : (splitNl b).getLast? with
+  | none => left; simpa [hl] using hj
+  | some l =>
+    cases l with
+    | cons c cs => left; simpa [hl] using hj
+    | nil =>
+      simp only
+      obtain ⟨ys, hys⟩ := List.getLast?_eq_some_iff.mp hl
+      rw [hys] at hj ⊢
+      simp only [List.dropLast_concat]
+      cases ys with
+      | nil => left; simpa [joinNl, joinCh] using hj
+      | cons y ys' =>
+        right
+        rw [← hj, joinNl_snoc_nil, joinNl_append_nl]
+
+/-- with the default token limit the scanner stops at the first long line: everything it returns is a
+    prefix of the complete result … -/
+theorem C17_limited_is_prefix (max : Nat) (b : Bytes) : scanLinesLim max b <+: scanLines b := by
+  unfold scanLinesLim scanLines
+  exact List.IsPrefix.map _ (List.takeWhile_prefix _)
+
+/-- … and it is complete exactly when no line reaches the limit. -/
+theorem C17_limited_complete (max : Nat) (b : Bytes) (h : ∀ l ∈ rawLines b, l.length < max) :
+    scanLinesLim max b = scanLines b := by
+  have key : ∀ ls : List Bytes, (∀ l ∈ ls, l.length < max) → ls.takeWhile (fun l => decide (l.length < max)) = ls := by
+    intro ls
+    induction ls with
+    | nil => intro _; rfl
+    | cons l ls ih =>
+      intro hls
+      have hl := hls l (by simp)
+      rw [List.takeWhile_cons, if_pos (by simpa using hl), ih (fun x hx => hls x (by simp [hx]))]
+  unfold scanLinesLim scanLines
+  rw [key _ h]
+
+/-- the defect that was repaired (D03), in the small: with a limit of 3 the line `aaaa` and the entry after it vanish -/
+theorem C17_default_limit_truncates :
+    scanLinesLim 3 "x\naaaa\ntail\n".toList = ["x".toList] ∧
+    scanLines "x\naaaa\ntail\n".toList = ["x".toList, "aaaa".toList, "tail".toList] := by
+  decide
+
+/-! ### every line-oriented command carries all lines through -/
+
+/-- renumber-tests: as many lines out as in (before the end-of-file rule removes trailing blank lines) -/
+theorem C17_renumber_all_lines (r : Bytes) (st : Renumber.St) (ls : List Bytes) :
+    (Renumber.renumberLines r st ls).length = ls.length := by
+  induction ls generalizing st with
+  | nil => simp [Renumber.renumberLines]
+  | cons l ls ih => simp [Renumber.renumberLines, ih]
+
+/-- update-copyright: the output consists of one rewritten line per input line, in order -/
+theorem C17_copyright_all_lines (v y b : Bytes) :
+    Copyright.updateRules v y b = unlines ((rawLines b).map (fun l => Copyright.stepLine v y (dropCR l))) := by
+  unfold Copyright.updateRules scanLines
+  rw [List.map_map]
+  rfl
+
+/-- format: the formatter sees one line per input line -/
+theorem C17_format_all_lines (ls : List Bytes) (n : Nat) (out : List Bytes)
+    (h : Format.formatLines ls n = some out) : out.length = ls.length := by
+  induction ls generalizing n out with
+  | nil => simp [Format.formatLines] at h; simp [← h]
+  | cons l ls ih =>
+    simp only [Format.formatLines] at h
+    split at h
+    · simp at h
+    · rename_i l' n' _
+      split at h
+      · simp at h
+      · rename_i rest hr
+        simp only [Option.some.injEq] at h
+        rw [← h]
+        simp [ih n' rest hr]
+
 end Crs.Props
